@@ -96,6 +96,9 @@ func near(got float64, exp100 int64) bool {
 
 // scaled renders a decimal value of the palette times 10^scale ("2.25" -> "2.25e19", "1e1" -> "1e20").
 func scaled(v string) string {
+	if strings.IndexAny(v, "eE.") < 0 { // a plain integer stays a plain integer: "2" -> "20000000000000000000" (20 digits, beyond 2^64)
+		return v + strings.Repeat("0", *scaleExp)
+	}
 	if i := strings.IndexAny(v, "eE"); i >= 0 {
 		var e int
 		fmt.Sscanf(v[i+1:], "%d", &e)
@@ -105,7 +108,10 @@ func scaled(v string) string {
 }
 
 // compare returns "" if the QPR agrees with the expectation.
-func compare(c *Case, q *seq.QPR, agg env.Agg) string {
+func compare(c *Case, q *seq.QPR, agg env.Agg) string { return compareAt(c, q, agg, 0, 1) }
+
+// compareAt: the ai-th of n aggregations of the response against the case's expectation
+func compareAt(c *Case, q *seq.QPR, agg env.Agg, ai, n int) string {
 	if q.Total != c.Exp.Total {
 		return fmt.Sprintf("total got %d exp %d", q.Total, c.Exp.Total)
 	}
@@ -119,10 +125,10 @@ func compare(c *Case, q *seq.QPR, agg env.Agg) string {
 			}
 		}
 	}
-	if len(q.Aggs) != 1 {
+	if len(q.Aggs) != n {
 		return fmt.Sprintf("aggs len %d", len(q.Aggs))
 	}
-	res := q.Aggs[0].Aggregate(env.AggArgs(agg))
+	res := q.Aggs[ai].Aggregate(env.AggArgs(agg))
 	if res.NotExists != c.Exp.Agg.Ne {
 		return fmt.Sprintf("not-exists got %d exp %d", res.NotExists, c.Exp.Agg.Ne)
 	}
@@ -239,9 +245,38 @@ func runGroup(g []*Case) {
 			emit(map[string]any{"end": c.N})
 		}
 	}
+	// pairs of cases with the same query: both aggregations in one request
+	byQuery := map[string][]*Case{}
+	var keys []string
+	for _, c := range g {
+		ab, _ := json.Marshal(c.Q.AST)
+		k := fmt.Sprintf("%s|%d|%d|%d", ab, c.Q.From, c.Q.To, c.Q.Hist)
+		if _, ok := byQuery[k]; !ok {
+			keys = append(keys, k)
+		}
+		byQuery[k] = append(byQuery[k], c)
+	}
+	for _, k := range keys {
+		cs := byQuery[k]
+		pairs := 0
+		for i := 0; i+1 < len(cs) && pairs < 4; i++ {
+			a, b := cs[i], cs[(i+1+c.N%3)%len(cs)]
+			if a == b || (a.Q.Agg.Interval == b.Q.Agg.Interval && a.Q.Agg.Func == b.Q.Agg.Func) {
+				continue
+			}
+			pairs++
+			if *progress {
+				emit(map[string]any{"begin": a.N})
+			}
+			runPair(e, a, b)
+			if *progress {
+				emit(map[string]any{"end": a.N})
+			}
+		}
+	}
 }
 
-func runCase(e *env.Env, c *Case) {
+func aggOf(c *Case) env.Agg {
 	agg := env.Agg{Func: c.Q.Agg.Func, Interval: c.Q.Agg.Interval}
 	if c.Q.Agg.Func == "count" || c.Q.Agg.Func == "unique" {
 		agg.GroupBy = "g"
@@ -254,6 +289,37 @@ func runCase(e *env.Env, c *Case) {
 	for _, q := range c.Q.Agg.Qs {
 		agg.Quantiles = append(agg.Quantiles, float64(q[0])/float64(q[1]))
 	}
+	return agg
+}
+
+// runPair: two cases that ask the same query with different aggregations are also sent as ONE request carrying both
+// aggregations (in both orders): every aggregation of a request must equal its own reference, whatever else the
+// request asks for (state shared between the aggregations of a request, e.g. time-bin extraction, must not leak)
+func runPair(e *env.Env, a, b *Case) {
+	for _, ord := range [][2]*Case{{a, b}, {b, a}} {
+		aggs := []env.Agg{aggOf(ord[0]), aggOf(ord[1])}
+		p := env.Params{From: a.Q.From, To: a.Q.To, Limit: 10, Order: "desc", WithTotal: true, Interval: a.Q.Hist, Aggs: aggs}
+		fracs := e.FM().GetAllFracs()
+		ast, _ := a.Q.AST.Build()
+		sp := e.SearchParams(p)
+		sp.AST = ast
+		r, err := env.SearchFracs(fracs, len(fracs), sp)
+		evals.Add(1)
+		if err != nil {
+			emit(map[string]any{"n": ord[0].N, "path": "two-aggs", "what": "error: " + err.Error(), "case": json.RawMessage(ord[0].raw)})
+			continue
+		}
+		for k := 0; k < 2; k++ {
+			if what := compareAt(ord[k], r.QPR, aggs[k], k, 2); what != "" {
+				emit(map[string]any{"n": ord[k].N, "path": "two-aggs", "what": fmt.Sprintf("aggregation %d of 2 in one request (the other: %s interval %d): %s", k+1, aggs[1-k].Func, aggs[1-k].Interval, what),
+					"case": json.RawMessage(ord[k].raw), "other": json.RawMessage(ord[1-k].raw)})
+			}
+		}
+	}
+}
+
+func runCase(e *env.Env, c *Case) {
+	agg := aggOf(c)
 	p := env.Params{From: c.Q.From, To: c.Q.To, Limit: 10, Order: "desc", WithTotal: true, Interval: c.Q.Hist, Aggs: []env.Agg{agg}}
 	if len(c.Exp.Agg.Buckets) > 0 {
 		nontriv.Add(1)
